@@ -14,7 +14,7 @@ def run(c):
         return
     _, ev2 = pc.enumerate_programs(c, "C05", 5 if c.quick else 6, ["sum", "lt"], "holes", holes=True, every=40 if c.quick else 200)
     n = 1 if c.quick else 20
-    ev3 = pc.generated(c, "C05", [("corpus", 0), ("alias", 400 * n), ("typed", 400 * n, 3), ("dependent", 200 * n), ("typelevel", 0), ("groundindex", 300 * n), ("deforder", 200 * n), ("recursion", 40 * n, 8), ("punch", 200 * n), ("bigint", 40 * n), ("groups", 100 * n), ("lettypes", 0), ("deforder3", 0), ("groundindex2", 300 * n), ("nestgroup", 360 * n), ("typerec", 96 * n)])
+    ev3 = pc.generated(c, "C05", [("corpus", 0), ("alias", 400 * n), ("typed", 400 * n, 3), ("dependent", 200 * n), ("typelevel", 0), ("groundindex", 300 * n), ("deforder", 200 * n), ("recursion", 40 * n, 8), ("punch", 200 * n), ("bigint", 40 * n), ("groups", 100 * n), ("lettypes", 0), ("deforder3", 0), ("groundindex2", 300 * n), ("nestgroup", 360 * n), ("typerec", 96 * n), ("nestpick", 0)])
     # crashes of the checker on generated programs: judge them here (a crash is 'not accepted')
     g = json.load(open(vf.WORK + "/pipe/C05-gen.json"))
     for m in g["mism"]:
